@@ -333,7 +333,30 @@ class C02(ScheduleEnumerationMixin, EngineCheck):
             case['collab'] = draw(collabs())
             return case
 
-        return st.one_of(*([s()] * 14), lazy_in_rec(), candidate_failures())
+        @st.composite
+        def falsy_decisive(draw):
+            # a node whose RESULT the engine inspects to decide something (one-of candidate, switch case, recurrent
+            # destination, output) returns None / a falsy value. Node and value are picked from the digest of the
+            # program rather than drawn: Hypothesis re-uses a small pool of choices within one run, which was seen to
+            # leave 'None' out of 436 candidate nodes altogether
+            case = draw(s())
+            prog = case['program']
+            cons = S.consumers(prog)
+            rec_dests = {m[2] for _, _, m in S.rec_marks(prog)}
+            nodes_ = [n['id'] for n in prog['nodes'] if n['id'] == prog['output'] or n['id'] in rec_dests
+                      or any(r in ('cand', 'case') for _, _, _, r in cons[n['id']])]
+            nodes_ = [x for x in nodes_ if 'label' not in case['variant']['nodes'].get(x, {})]
+            if nodes_:
+                h = int(S.digest(prog, 8), 16)
+                nid = nodes_[h % len(nodes_)]
+                kind = ['none', 'zero', 'empty', 'false', 'list', 'none'][(h // 7) % 6]
+                beh = case['variant']['nodes'].setdefault(nid, {})
+                beh['value'] = kind
+                beh.pop('outcomes', None)
+                beh.pop('tail', None)
+            return case
+
+        return st.one_of(*([s()] * 13), falsy_decisive(), lazy_in_rec(), candidate_failures())
 
     def oracle(self, case, refres, obs):
         v = []
